@@ -171,5 +171,7 @@ def run(chk):
     pg_attrs, pg_summ = pg_index_spaces(chk)
     # the grid-level caller hands parallel_gradient the index space its tables need
     v_parallel(chk, pg_summ)
+    from .. import lints as _l
+    _l.check_cache_keys(chk, U.ADV, "ParallelGradient")
     chk.floor("F7-", 9)
     chk.floor("C-", 3)
